@@ -44,6 +44,32 @@ def run_ctor(steps):
     return root
 
 
+RAW_DOCS = [
+    # general entities declared in the internal subset, used in text and in an attribute value
+    '<!DOCTYPE x [<!ENTITY site "lab-7"><!ENTITY two "x y">]><x loc="&site;"><n>&site;</n><m>a &two; b</m>tail &site;</x>',
+    '<?xml version="1.0"?><!DOCTYPE x [<!ENTITY e "<i>in</i>">]><x><p>&e;</p></x>',
+    # attribute defaults from the internal subset
+    '<!DOCTYPE x [<!ATTLIST x kind CDATA "dflt">]><x><y/></x>',
+    # CDATA sections, hexadecimal and decimal character references
+    '<x><![CDATA[a <b> & ]]]]><![CDATA[>c]]></x>', '<x a="&#x41;&#66;&#x1F600;">&#x3c;&#62;&#xD;&#10;</x>',
+    # comments / processing instructions around the root, standalone declaration
+    '<?xml version="1.0" encoding="UTF-8" standalone="yes"?><!-- before --><?pi data?><x><y/></x><!-- after -->',
+    # prefixes that are declared and used ONLY inside content (identityref, XPath): the bindings are part of the tree
+    '<a xmlns="urn:a" xmlns:if="urn:iface"><t>if:eth0</t></a>',
+    '<filter xmlns:ip="urn:ip" xmlns:nc="urn:ietf:params:xml:ns:netconf:base:1.0" type="xpath" select="/ip:a[ip:b=\'x\']"/>',
+    '<a><b xmlns:ianaift="urn:iana-if-type"><type>ianaift:ethernetCsmacd</type></b><c xmlns:q="urn:q" ref="q:v"/></a>',
+    '<p:a xmlns:p="urn:p" xmlns:unused="urn:unused"><p:b xmlns:p="urn:p2">p:x</p:b></p:a>',
+    # redeclared default namespace, reset to none
+    '<a xmlns="urn:a"><b xmlns=""><c xmlns="urn:c"/></b></a>',
+    # white space and line ends
+    '<x>\r\nline\rend\t</x>', '<x  a = "1"   b=\'2\' ><y  /></x >',
+]
+
+
+def nsmaps(el):
+    return [sorted(('' if k is None else k, v) for k, v in e.nsmap.items()) for e in el.iter() if isinstance(e.tag, str)]
+
+
 def spec_validated(tags, reqs, node):
     tag = (node[1], node[2])
     present = {(a[0], a[1]) for a in node[3]}
@@ -65,7 +91,7 @@ class C17(Check):
             '(incl. a default-namespace root): to_xml -> to_ele must give an equivalent tree which xml.etree (expat) reads identically, with '
             'exactly one XML declaration, and parse_root must agree with the full parse; random tag / attribute requirement sets for '
             'validated_element; random (old, new) namespace pairs for replace_namespace - each compared with the Lean model and with a spec '
-            'written in the harness; namespace-free trees built with new_ele_ns / sub_ele_ns and nasty strings: to_xml vs the model\'s serialize byte for byte, expat vs parseDoc (theorem tree_roundtrip). Non-trivial = a tree with >= 3 nodes; distinct by case.')
+            'written in the harness; namespace-free trees built with new_ele_ns / sub_ele_ns and nasty strings: to_xml vs the model\'s serialize byte for byte, expat vs parseDoc (theorem tree_roundtrip); a corpus of raw documents (internal-subset entities and attribute defaults, CDATA, character references, comments / PIs around the root, prefixes used only in content, namespace resets): round trip, in-scope namespace bindings per element, the tree left untouched by to_xml, xml.etree reading the serialised form as the tree. Non-trivial = a tree with >= 3 nodes; distinct by case.')
     TRUST = ['lxml parser / serialiser and expat are MODELLED for namespace-free trees (Model/XmlDoc.lean: serialize / parseDoc, compared with to_xml and expat each run) and environment otherwise (prefixes, comments, PIs, CDATA, DTD): there the round trip is a correspondence result']
     ASSUMPTIONS = ['replace_namespace: an element carrying both {old}a and {new}a attributes loses one of them (premise of replaceAttrs_exact; '
                    'such inputs are not generated)']
@@ -100,6 +126,8 @@ class C17(Check):
         from props import C07 as P7
         for i in range(n // 2):
             out.append({'kind': 'plain', 'tree': P7.plain_tree(rng)})
+        for i, d in enumerate(RAW_DOCS):
+            out.append({'kind': 'raw', 'i': i})
         out.append({'kind': 'ctor', 'steps': [['new_ele+nsmap-default', 'hello', 'urn:a'], ['sub_ele', 0, 'capabilities', 'urn:a', None, None],
                                               ['sub_ele', 1, 'capability', 'urn:a', 'urn:x', None]]})
         return out
@@ -119,6 +147,23 @@ class C17(Check):
             xml2 = nx.to_xml(nx.to_ele(xml))
             return {'ser': body, 'back': P7.plain_from_etree(ET.fromstring(xml.encode('utf-8'))), 'same_again': xml2 == xml,
                     'lxml_back': P7.plain_from_etree(nx.to_ele(xml))}
+        if k == 'raw':
+            raw = RAW_DOCS[case['i']]
+            t1 = nx.to_ele(raw)
+            mem, ns1 = X.canon(X.from_lxml(t1)), nsmaps(t1)
+            xml = nx.to_xml(t1)
+            after = X.canon(X.from_lxml(t1))            # serialising must not change the caller's tree
+            ns_after = nsmaps(t1)
+            try:
+                t2 = nx.to_ele(xml)
+            except Exception as e:
+                return {'reparse_error': type(e).__name__ + ': ' + str(e)[:100]}
+            try:
+                indep = X.canon(X.from_lxml(ET.fromstring(xml.encode('utf-8'))))
+            except Exception as e:
+                indep = 'parse-error:' + repr(e)[:100]
+            return {'mem': mem, 'back': X.canon(X.from_lxml(t2)), 'ns_same': ns1 == nsmaps(t2), 'untouched': after == mem and ns_after == ns1,
+                    'indep': indep, 'ndecl': xml.count('<?xml')}
         if k in ('doc', 'ctor'):
             el = X.to_lxml(case['tree']) if k == 'doc' else run_ctor(case['steps'])
             mem = X.canon(X.from_lxml(el))
@@ -197,6 +242,21 @@ class C17(Check):
 
     def oracle(self, case, io):
         k = case['kind']
+        if k == 'raw':
+            tag = 'document %d (%s...)' % (case['i'], RAW_DOCS[case['i']][:50])
+            if 'reparse_error' in io:
+                return ('C17:roundtrip-not-identity:raw', 'to_xml(to_ele(d)) cannot be parsed back (%s) for %s' % (io['reparse_error'], tag))
+            if io['back'] != io['mem']:
+                return ('C17:roundtrip-not-identity:raw', 'to_ele(to_xml(t)) differs from t for %s' % tag)
+            if not io['ns_same']:
+                return ('C17:namespace-bindings-lost', 'the in-scope namespace bindings of some element differ after to_xml -> to_ele for %s' % tag)
+            if not io['untouched']:
+                return ('C17:to-xml-mutates-tree', 'to_xml changed the tree it was given (%s)' % tag)
+            if io['indep'] != X.canon(X.drop_comments(io['mem'])):
+                return ('C17:independent-parser-disagrees:raw', 'xml.etree reads the serialised form differently from the tree (%s): %s' % (tag, str(io['indep'])[:120]))
+            if io['ndecl'] != 1:
+                return ('C17:declaration-count', 'serialised form has %d XML declarations' % io['ndecl'])
+            return None
         if k == 'plain':
             if 'unbuildable' in io:
                 return None
@@ -236,6 +296,8 @@ class C17(Check):
             return 1 + sum(size(c) for c in n[-1]) if n[0] == 'E' else 1
         if 'tree' in case:
             return size(case['tree']) >= 3
+        if case['kind'] == 'raw':
+            return True
         return len(case['steps']) >= 3
 
     def search(self, tier, rng, broken):
